@@ -218,10 +218,8 @@ func polModel(c polCase) polTrace {
 					wait = 3 * time.Second
 				}
 				if cancel > 0 && cancel <= t {
-					if wait == 0 {
-						// already cancelled and a zero back-off timer: both select cases are ready
-						tr.Unspecified = "cancellation before a zero-length back-off wait (either branch may win)"
-					}
+					// (also before the zero-length first wait: once cancelled, nothing is dialled any more - finding F25;
+					// until then both select cases were ready there and the outcome was left unjudged)
 					tr.Result, tr.ReturnAt = "nil", t
 					return tr
 				}
@@ -682,7 +680,7 @@ func polExecute(t *testing.T, c polCase) polRun {
 		}()
 		select {
 		case <-done:
-		case <-time.After(30*time.Minute + 64*time.Duration(c.CleanupNS)): // (the harness's patience: at most 60 connections are closed)
+		case <-time.After(30*time.Minute + 64*time.Duration(c.CleanupNS) + 400*time.Duration(c.DialNS)): // (the harness's patience: at most 60 connections are closed)
 			out.Blocked = true
 		}
 		cancel()
@@ -847,7 +845,7 @@ func polGen(real bool) func(t *rapid.T) polCase {
 			}
 		}
 		if rapid.IntRange(0, 2).Draw(t, "diallat") == 0 {
-			c.DialNS = rapid.SampledFrom([]int64{int64(10 * time.Millisecond), int64(40 * time.Millisecond)}).Draw(t, "dialns")
+			c.DialNS = rapid.SampledFrom([]int64{int64(10 * time.Millisecond), int64(40 * time.Millisecond), int64(10 * time.Millisecond), int64(2 * time.Second), int64(20 * time.Second)}).Draw(t, "dialns")
 		}
 		if rapid.Bool().Draw(t, "cancel") {
 			c.CancelNS = rapid.Int64Range(0, 400).Draw(t, "cancelslot")*int64(125*time.Millisecond) + 1
